@@ -148,8 +148,12 @@ let run_one (c : case) (f : nat Store.fw) sem q cert enc (labels : int list) (sc
     finish ()
   end
 
+let capped (c : case) =
+  Stdlib.List.exists (fun (t, toks) -> t = "OUT" && Stdlib.List.exists (fun x -> String.length x >= 12 && String.sub x 0 12 = "sat-call-cap") toks) c.lines
+
 let run_case (c : case) =
   begin_case c;
+  if capped c then out "panic not-replayed-sat-call-cap-exceeded" else
   (match String.split_on_char '/' c.kind with
    | [ _; sem; q; cert; enc ] ->
        let f = build_fw c in
